@@ -1047,6 +1047,59 @@ def run(ctx):
             ctx.violation("diff-raises:%s" % type(e).__name__, witness, repr(e)[:300])
             continue
         mine[key] = changes
+        if rng.random() < 0.25:
+            # history: the schema that has just been diffed is changed in place (a field is hidden through the
+            # public SchemaVisitor API) and diffed again: the answer is that of diffing a fresh copy of it
+            from py_gql.schema.transforms import VisibilitySchemaTransform
+
+            cands = [(t.name, f.name) for t in b.types.values() if t.kind == "object" and len(t.fields) > 1 and t.name != b.query
+                     for f in t.fields if a.types.get(t.name) is not None and a.types[t.name].kind == "object" and a.types[t.name].field(f.name)
+                     and not any(b.types[i].field(f.name) for i in t.interfaces if i in b.types)]
+            if cands:
+                hidden = rng.choice(cands)
+
+                from py_gql.schema import SchemaVisitor
+
+                class HideByVisibility(VisibilitySchemaTransform):
+                    def is_field_visible(self, typename, fieldname):
+                        return (typename, fieldname) != hidden
+
+                class HideByVisitor(SchemaVisitor):
+                    # a plain schema visitor that drops the field: the type is rebuilt and replaced in the schema
+                    def on_object(self, object_type):
+                        self._current = object_type.name
+                        return super().on_object(object_type)
+
+                    def on_field(self, field):
+                        if (getattr(self, "_current", None), field.name) == hidden:
+                            return None
+                        return super().on_field(field)
+
+                Hide = HideByVisibility if rng.random() < 0.5 else HideByVisitor
+
+                try:
+                    Hide().on_schema(new)
+                    new.validate()
+                except Exception:
+                    ctx.count("in_place_change_refused")
+                else:
+                    ctx.evaluated()
+                    ctx.count("diffs_after_in_place_change")
+                    w2 = dict(witness, hidden_in_place="%s.%s" % hidden)
+                    try:
+                        again, fresh = changes_of(old, new), changes_of(old, new.clone())
+                    except SchemaError:
+                        ctx.count("in_place_change_refused")     # the narrowed schema is not a valid schema
+                        continue
+                    except Exception as e:
+                        ctx.violation("diff-raises:%s:after-in-place-change" % type(e).__name__, w2, repr(e)[:300])
+                        continue
+                    if again != fresh:
+                        ctx.violation("history:diff-after-in-place-change-differs-from-diff-of-a-fresh-copy", w2,
+                                      "same object: %r; clone: %r" % ([m for _c, m, _s in again][:4], [m for _c, m, _s in fresh][:4]))
+                    elif not any(hidden[1] in m for _c, m, _s in again):
+                        ctx.violation("history:field-hidden-in-place-not-reported", w2, repr([m for _c, m, _s in again][:6]))
+                    continue
         for _c, _m, sev in changes:
             ctx.count("severity:%s" % {0: "COMPATIBLE", 1: "DANGEROUS", 2: "BREAKING"}[sev])
         # every edit is named by some change
